@@ -25,7 +25,7 @@ def main():
             sigs = [l.strip() for l in r.stdout.splitlines() if l.startswith("  signature:")]
             res[p] = dict(exit=r.returncode, signatures=sigs[:6], wall=round(time.time() - t0, 1))
             print(f"{p} {tier}: exit {r.returncode} {'CAUGHT' if r.returncode == 1 else ('HARNESS-PROBLEM' if r.returncode == 2 else 'missed')} {sigs[:3]}", flush=True)
-            if r.returncode == 2: print(r.stdout[-1500:], r.stderr[-1500:])
+            if r.returncode == 2 or (r.returncode == 1 and not sigs): print("STDOUT-TAIL:", r.stdout[-1500:], "STDERR-TAIL:", r.stderr[-1500:])
     finally:
         subprocess.run(["git", "-C", "/repo", "worktree", "remove", "--force", wt])
         shutil.rmtree(bld, ignore_errors=True); shutil.rmtree(out, ignore_errors=True)
